@@ -966,6 +966,40 @@ def r_guard(f):
                 RA.fail(b.ident, "idx:%s" % bad[1].replace("WithOverflow", ""), "%s multiplies the caller's index with a plain `%s`: with overflow checks off a huge index wraps to an in-range position and a wrong cell is returned instead of a panic" % (b.ident, bad[1].replace("WithOverflow", "")), b.where(bad[0]))
             if not checked_index:
                 RA.fail(b.ident, "idx:unchecked-access", "%s no longer reaches the cell through a checked slice index" % b.ident, b.where())
+    # insert_row / insert_col: on a non-empty array the supplied line must have exactly the existing width / height: an equality
+    # guard between the iterator's claimed length (ExactSizeIterator::len on the caller's iterator) and the dimension of the other
+    # axis, whose failing edge panics, precedes the window (the exhaustion debug_assert at the end only exists in debug builds)
+    for nm_, dimname_ in (("insert_row", "num_cols"), ("insert_col", "num_rows")):
+        for b in f.fn_bodies:
+            if not (b.self_head == "TooDee" and b.name == nm_ and not b.impl_trait and b.kind == "AssocFn"):
+                continue
+            n += 1
+            g = G(b, f)
+            tdf_ = [a for a in f.adts if a["id"].split("::")[-1] == "TooDee"]
+            fidx_ = {x["name"]: i for i, x in enumerate(tdf_[0]["fields"])} if tdf_ else {}
+            found_ = []
+            wrongdim_ = []
+            for (gbi, op, lo, ro, okb) in g.guards():
+                if op != "Eq":
+                    continue
+                sides = [strip(lo), strip(ro)]
+                has_len = [any(x[0] == "call" and x[2] == "len" and len(x) > 4 and isinstance(x[4], dict) and (is_caller_code(x[4]) or ((x[4].get("trait") or "").endswith("ExactSizeIterator") and re.search(r"/#\d", " ".join(x[4].get("args") or []) + (x[4].get("self_ty") or "")))) for x in walk(sd)) for sd in sides]
+                if not any(has_len):
+                    continue
+                other = sides[1] if has_len[0] else sides[0]
+                def is_dim(e, nm):
+                    e = strip(e)
+                    return (e[0] == "field" and e[2] == fidx_.get(nm) and strip(e[1]) in (("deref", ("param", 1)), ("param", 1))) or (e[0] == "call" and e[2] == nm)
+                if is_dim(other, dimname_):
+                    found_.append(gbi)
+                elif is_dim(other, "num_rows" if dimname_ == "num_cols" else "num_cols"):
+                    wrongdim_.append(gbi)
+            # the window opens at the first length-lowering call
+            lower = [bi for bi, t, fn in b.calls() if fn and fn["name"] in ("set_len", "truncate", "clear") and "alloc::vec::Vec" in fn["path"]]
+            ok_ = bool(found_)
+            R.inst(b.ident, "the line's claimed length is compared (==, failing edge panics) with self.%s before the window" % dimname_, ok_)
+            if not ok_:
+                R.fail(b.ident, "line-length:%s" % ("wrong-dimension" if wrongdim_ else "no-guard"), "%s does not reject a line whose length differs from self.%s on a non-empty array (%s): with overflow / debug assertions off a longer line is silently truncated where the call must panic" % (b.ident, dimname_, "the length is compared with the other dimension" if wrongdim_ else "no equality guard on the iterator's len() whose failing edge panics"), b.where())
     # the capacity calls take an unbounded caller count (insert_row / insert_col pass an iterator's claimed length through
     # them): any plain or wrapping sum / product of it can wrap (zero-sized elements make lengths near usize::MAX real), and the
     # "capacity overflow" panic that the insert functions rely on is lost
